@@ -9,7 +9,9 @@
   regenerated constant `ConstGen.stdMacroText`; the closed facts about it are re-checked by
   `decide +kernel` (`Sugar.std_defs_check` in Proofs/SugarDetect.lean).
 -/
-import Theo.Proofs.SugarApply
+import Theo.Proofs.SugarFront
+import Theo.Proofs.SugarEnd
+import Theo.Props.C04Static
 
 namespace Theo
 
@@ -92,5 +94,174 @@ theorem C04_sugar_fixpoint (ts : List Token) (h : sugarStep ts = none) :
 theorem C04_desugarLA_eq (ts : List Token) (h : Scanned ts) :
     desugarLA ts = desugar ts ∧ sugarCountLA ts = sugarCount ts :=
   desugarLA_eq h
+
+/-! ### the whole front end of `Theo::parse` on a source without macro definitions
+
+  `frontFiles files main` is the file table `Theo::parse` scans (standard file added, include phrase
+  in front of the main file); `userToks files main` are the tokens the scanner delivers behind the
+  standard file's: the main file's own tokens (with its includes) and the end marker.
+
+  Hypotheses: `hstd` — the caller supplies no file named `__standards__` (otherwise that file
+  replaces the built-in definitions); `hmain` — the main file exists; `hnodef` — no `DEFINE` token in
+  the user's tokens: the source defines no macro. -/
+
+/-- `frontEnd` (Props/C04Static.lean) is scanner, extraction, application on `frontFiles` -/
+theorem C04_frontEnd_eq (files : Files) (main : Bytes) :
+    frontEnd files main =
+      (let sr := scan (frontFiles files main) main
+       let mer := extractMacros sr.toks
+       let mar := applyMacros mer.toks mer.macros ConstGen.macroPasses
+       (mar.toks, sr.errs ++ mer.errs ++ mar.errs)) := rfl
+
+/-- the scanner's part: standard tokens first, then the user's; these are scanner output
+    (`Scanned`), namely the tokens of the main file's own text followed by the end marker -/
+theorem C04_front_scan (files : Files) (main content : Bytes)
+    (hstd : files.has ConstGen.stdFileName = false) (hmain : files.get? main = some content) :
+    (scan (frontFiles files main) main).toks = stdBody ++ userToks files main ∧
+    (∃ eof : Token, eof.kind = Tok.T_EOF ∧ userToks files main = (userScan files main content).toks ++ [eof]) ∧
+    (scan (frontFiles files main) main).errs = (userScan files main content).errs ∧
+    Scanned (userToks files main) ∧ EndMarked (userToks files main) := by
+  obtain ⟨h1, ⟨eof, he, hu⟩, hne, hsc⟩ := userToks_eq hstd hmain
+  obtain ⟨_, _, _, herr⟩ := front_scan hstd hmain
+  exact ⟨h1, ⟨eof, he, hu⟩, herr, hsc, _, eof, hu, he, hne⟩
+
+/-- extraction: exactly the built-in definitions, no error, the user's tokens unchanged -/
+theorem C04_front_extract (files : Files) (main content : Bytes)
+    (hstd : files.has ConstGen.stdFileName = false) (hmain : files.get? main = some content)
+    (hnodef : ∀ t ∈ userToks files main, t.kind ≠ Tok.DEFINE) :
+    extractMacros (scan (frontFiles files main) main).toks = ⟨[], userToks files main, stdDefs⟩ :=
+  front_extract hstd hmain hnodef
+
+/-- **C04, sugar clause, for the front end.**  For a source without macro definitions whose number
+    of sugar occurrences is below the pass budget (1024), the token stream that reaches the parser
+    is the desugared source, and the only front-end errors are the scanner's. -/
+theorem C04_sugar_frontEnd (files : Files) (main content : Bytes)
+    (hstd : files.has ConstGen.stdFileName = false) (hmain : files.get? main = some content)
+    (hnodef : ∀ t ∈ userToks files main, t.kind ≠ Tok.DEFINE)
+    (hb : sugarCount (userToks files main) < ConstGen.macroPasses) :
+    (frontEnd files main).1 = desugar (userToks files main) ∧
+    (frontEnd files main).2 = (scan (frontFiles files main) main).errs ∧
+    EndMarked (frontEnd files main).1 := by
+  obtain ⟨_, _, _, hsc, hem⟩ := C04_front_scan files main content hstd hmain
+  have hx := front_extract hstd hmain hnodef
+  obtain ⟨a1, a2, _⟩ := C04_sugar_apply (userToks files main) ConstGen.macroPasses hsc hb
+  have h1 : (frontEnd files main).1 = desugar (userToks files main) := by
+    rw [C04_frontEnd_eq]; simp only [hx]; exact a1
+  refine ⟨h1, ?_, ?_⟩
+  · rw [C04_frontEnd_eq]; simp only [hx, a2, List.append_nil]
+  · rw [h1, ← (desugarLA_eq hsc).1]
+    exact desugarLA_endMarked _ hem
+
+/-- the budget-exceeded case for the front end (C11): with 1024 or more occurrences the first 1024
+    are rewritten, MACRO_APPLY_REACHED_MAX_PASSES is reported, and compilation fails -/
+theorem C04_sugar_frontEnd_budget (files : Files) (main content : Bytes)
+    (hstd : files.has ConstGen.stdFileName = false) (hmain : files.get? main = some content)
+    (hnodef : ∀ t ∈ userToks files main, t.kind ≠ Tok.DEFINE)
+    (hb : ConstGen.macroPasses ≤ sugarCount (userToks files main)) :
+    (frontEnd files main).1 = sugarIter ConstGen.macroPasses (userToks files main) ∧
+    (frontEnd files main).2 = (scan (frontFiles files main) main).errs ++ [maxPassesErr] ∧
+    (compile files main).ok = false := by
+  obtain ⟨_, _, _, hsc, hem⟩ := C04_front_scan files main content hstd hmain
+  have hx := front_extract hstd hmain hnodef
+  obtain ⟨a1, a2, _⟩ := C04_sugar_budget_exceeded (userToks files main) ConstGen.macroPasses (by decide)
+    (by rw [(desugarLA_eq hsc).2]; exact hb)
+  have h1 : (frontEnd files main).1 = sugarIter ConstGen.macroPasses (userToks files main) := by
+    rw [C04_frontEnd_eq]; simp only [hx]; exact a1
+  have h2 : (frontEnd files main).2 = (scan (frontFiles files main) main).errs ++ [maxPassesErr] := by
+    rw [C04_frontEnd_eq]; simp only [hx, a2, List.append_nil]
+  refine ⟨h1, h2, ?_⟩
+  have hem' : EndMarked (frontEnd files main).1 := by rw [h1]; exact sugarIter_endMarked _ _ hem
+  cases hc : (compile files main).ok with
+  | false => rfl
+  | true =>
+    have := ((C04_compile_iff files main hem').1 hc).1
+    rw [h2] at this
+    simp at this
+
+/-- **C04 for sources without macro definitions**: such a source compiles successfully iff the
+    scanner reports no error and, after the built-in sugar is applied, the token stream is a sentence
+    of the documented grammar and the parsed program obeys the static rules. -/
+theorem C04_compile_iff_sugar (files : Files) (main content : Bytes)
+    (hstd : files.has ConstGen.stdFileName = false) (hmain : files.get? main = some content)
+    (hnodef : ∀ t ∈ userToks files main, t.kind ≠ Tok.DEFINE)
+    (hb : sugarCount (userToks files main) < ConstGen.macroPasses) :
+    (compile files main).ok = true ↔
+      ((scan (frontFiles files main) main).errs = [] ∧
+        Derives langGrammar (.n LangNT.S) (bodyKinds (desugar (userToks files main))) ∧
+        staticOK (toSource (parseTokens (desugar (userToks files main))).1) = true) := by
+  obtain ⟨h1, h2, hem⟩ := C04_sugar_frontEnd files main content hstd hmain hnodef hb
+  rw [C04_compile_iff files main hem, h1, h2]
+
+/-! ### non-vacuity -/
+
+namespace C04SugarDemo
+def tk (k : Nat) (s : Bytes) : Token := ⟨k, s, [109], 1⟩
+
+/-- `x0 := x1 + 2 ; x3 := x3 - 1` and the end marker -/
+def src : List Token :=
+  [tk Tok.ID [120, 48], tk Tok.ASSIGN [58, 61], tk Tok.ID [120, 49], tk Tok.NV_ID [43], tk Tok.INT [50],
+   tk Tok.PROGSEP [59],
+   tk Tok.ID [120, 51], tk Tok.ASSIGN [58, 61], tk Tok.ID [120, 51], tk Tok.NV_ID [45], tk Tok.INT [49],
+   tk Tok.T_EOF [69, 79, 70]]
+
+/-- `x0 := RUN __INC__ WITH x1 , 2 END ; x3 := RUN __DEC__ WITH x3 , 1 END`: the inserted tokens are
+    positioned on line 1 / line 2 of the standards file, `x1`, `2`, `x3`, `1` keep their own positions -/
+example : desugar src =
+    [tk Tok.ID [120, 48], tk Tok.ASSIGN [58, 61]] ++ call incName 1 (tk Tok.ID [120, 49]) (tk Tok.INT [50]) ++
+    [tk Tok.PROGSEP [59], tk Tok.ID [120, 51], tk Tok.ASSIGN [58, 61]] ++
+      call decName 2 (tk Tok.ID [120, 51]) (tk Tok.INT [49]) ++ [tk Tok.T_EOF [69, 79, 70]] ∧
+    sugarCount src = 2 := by decide
+
+theorem src_scanned : Scanned src :=
+  ⟨by decide, src.dropLast, tk Tok.T_EOF [69, 79, 70], by decide, rfl⟩
+
+/-- the hypotheses of `C04_sugar_apply` are satisfiable, with the real budget -/
+example : (applyMacros src stdDefs ConstGen.macroPasses).toks = desugar src ∧
+    (applyMacros src stdDefs ConstGen.macroPasses).errs = [] ∧
+    (applyMacros src stdDefs ConstGen.macroPasses).rewrites = 2 :=
+  C04_sugar_apply src ConstGen.macroPasses src_scanned (by decide)
+
+/-- with budget 2 (= the number of occurrences) the stream is fully desugared but the error is
+    reported; with budget 1 only the leftmost occurrence is rewritten -/
+example : (applyMacros src stdDefs 2).toks = desugar src ∧ (applyMacros src stdDefs 2).errs = [maxPassesErr] := by
+  obtain ⟨h1, h2, _⟩ := C04_sugar_budget_exceeded src 2 (by decide) (by decide)
+  exact ⟨h1.trans (by decide), h2⟩
+
+example : (applyMacros src stdDefs 1).toks =
+    [tk Tok.ID [120, 48], tk Tok.ASSIGN [58, 61]] ++ call incName 1 (tk Tok.ID [120, 49]) (tk Tok.INT [50]) ++ src.drop 5 := by
+  obtain ⟨h1, _⟩ := C04_sugar_budget_exceeded src 1 (by decide) (by decide)
+  exact h1.trans (by decide)
+
+/-- `a + 1 + 2`: only `a + 1` is sugar; the rewrite does not enable `END + 2` -/
+example : desugar [tk Tok.ID [97], tk Tok.NV_ID [43], tk Tok.INT [49], tk Tok.NV_ID [43], tk Tok.INT [50],
+      tk Tok.T_EOF [69, 79, 70]] =
+    call incName 1 (tk Tok.ID [97]) (tk Tok.INT [49]) ++
+      [tk Tok.NV_ID [43], tk Tok.INT [50], tk Tok.T_EOF [69, 79, 70]] := by decide
+
+/-- outside scanner output the lookahead matters: `a + 1` with nothing behind it is not rewritten
+    by the model (`desugarLA`), while the plain `desugar` rewrites it -/
+example : desugarLA [tk Tok.ID [97], tk Tok.NV_ID [43], tk Tok.INT [49]] =
+      [tk Tok.ID [97], tk Tok.NV_ID [43], tk Tok.INT [49]] ∧
+    desugar [tk Tok.ID [97], tk Tok.NV_ID [43], tk Tok.INT [49]] =
+      call incName 1 (tk Tok.ID [97]) (tk Tok.INT [49]) ∧
+    (applyMacros [tk Tok.ID [97], tk Tok.NV_ID [43], tk Tok.INT [49]] stdDefs 5).toks =
+      [tk Tok.ID [97], tk Tok.NV_ID [43], tk Tok.INT [49]] := by
+  refine ⟨by decide, by decide, ?_⟩
+  exact (C04_sugar_apply_exact _ 5 (by decide)).1.trans (by decide)
+
+/-- the front end on the file `m` = "x0 := x1 + 2 ; x3 := x3 - 1": all hypotheses of
+    `C04_sugar_frontEnd` hold, and the user's tokens are `src` -/
+def files : Files := [([109], [120, 48, 32, 58, 61, 32, 120, 49, 32, 43, 32, 50, 32, 59, 32,
+  120, 51, 32, 58, 61, 32, 120, 51, 32, 45, 32, 49])]
+
+theorem files_userToks : userToks files [109] = src := by decide +kernel
+
+example : (frontEnd files [109]).1 = desugar src ∧ (frontEnd files [109]).2 = [] := by
+  obtain ⟨h1, h2, _⟩ := C04_sugar_frontEnd files [109] _ (by decide) rfl
+    (by rw [files_userToks]; decide) (by rw [files_userToks]; decide)
+  rw [files_userToks] at h1
+  exact ⟨h1, h2.trans (by decide +kernel)⟩
+
+end C04SugarDemo
 
 end Theo
